@@ -16,6 +16,14 @@ def leg(test, qchecks, tchecks, qshards=4, tshards=16, bin="std", qtimeout=300, 
     }
 
 
+RACE_ENV = {"GORACE": "log_path={work}/race.{shard} halt_on_error=0", "VERIF_RACE_LOG": "{work}/race.{shard}"}
+
+
+def raceleg(test, qchecks, tchecks, qshards=8, tshards=16):
+    """Leg built with go1.26.8 -race (testing/synctest owned schedules, race detector)."""
+    return leg(test, qchecks, tchecks, qshards=qshards, tshards=tshards, bin="race", qenv=dict(RACE_ENV), tenv=dict(RACE_ENV))
+
+
 def fuzzleg(target, seconds):
     """Native coverage-guided fuzz campaign (thorough tier only)."""
     return {
@@ -119,11 +127,11 @@ PROPS = {
         "title": "A close frame is the last thing a connection ever writes",
         "level": "exploration",
         "rule": "part afterclose (sequential interleavings): a rapid-generated write program (all write APIs, invalid requests, writers left open) into which one close action is inserted at a generated position - as a step or between the calls of an open message writer - by one of 7 paths {WriteControl, WriteMessage, NextWriter+Close, PreparedMessage, default close handler answering a peer close, automatic 1002 after a framing violation, automatic 1009 after a read-limit breach}, followed by further steps of every kind; oracle: the wire decodes (independent decoder) to valid frames ending with that close frame and not one byte after it; every WriteMessage/NextWriter/WriteControl/WriteJSON/WritePreparedMessage call that starts afterwards fails, with ErrCloseSent when the request is valid; Close of a writer opened before the close frame fails; every message reported sent is completely on the wire before the close frame. Non-trivial = the close lands inside an open message, or calls follow it.",
-        "assumptions": TRUST + ["owned-schedule (synctest) leg for concurrent WriteControl callers is part of the C11 machinery"],
+        "assumptions": TRUST + ["part owned-schedule: actors {writer program, 0-4 WriteControl callers incl. close senders, reader with default handlers fed pings/close} run in a testing/synctest bubble (go1.26.8); every transport Write blocks at a gate, a rapid-generated schedule of {start actor, grant oldest write, advance fake clock, Close} decides who proceeds, so a close frame can be held inside the transport while others queue on the write lock; granularity is API call / transport write / lock acquisition, not instructions"],
         "level_text": "Bounded random exploration of positions and paths of the close inside write programs (sequential interleavings at API-call granularity).",
         "level_note": "Wire judged by the independent decoder; error identities asserted only where the statement names them (ErrCloseSent).",
         "technique": "property-based testing (rapid): generated programs with an inserted close action, history invariant oracle",
-        "legs": [leg("^TestC09$", 4000, 40000, qshards=8)],
+        "legs": [leg("^TestC09$", 4000, 40000, qshards=8), raceleg("^TestC09Owned$", 400, 5000)],
     },
     "C10": {
         "title": "Write failures are fail-stop; bad requests write nothing; deadlines are applied",
@@ -144,6 +152,16 @@ PROPS = {
         "level_note": "Interleaving granularity is one public API call.",
         "technique": "property-based testing (rapid): generated multi-connection schedules, instrumented pool, invariant after every step",
         "legs": [leg("^TestC20$", 3000, 30000, qshards=8)],
+    },
+    "C11": {
+        "title": "Documented concurrency contract: race-free, frames atomic, WriteControl bounded",
+        "level": "exploration",
+        "rule": "actors: 1 writer running a rapid-generated write program (all APIs, invalid requests, optional close), 1 reader with default handlers fed 0-3 pings and an optional close, 0-3 WriteControl callers (ping/pong/close, zero or finite deadlines), Close at a generated moment. part owned-schedule (testing/synctest bubble, fake clock, -race): every transport Write blocks at a gate; a generated schedule of {start actor, grant oldest write, advance fake time 1..1100 ms, Close} owns the interleaving, so a writer can be held inside the critical section past other callers' deadlines. Oracle: never two goroutines inside transport Write; the wire decodes (independent decoder) to whole frames with control frames only between frames; the writer's messages arrive in order with exact payloads; a control frame is on the wire iff its call returned nil; a WriteControl that failed returned a timeout net.Error no later than its deadline on the fake clock (exact), wrote nothing, and the writer's later calls still succeed; a WriteControl that succeeded reached the transport no later than its deadline; nobody is stuck after all writes are granted and 20 s of fake time; nothing follows a close frame and calls started after it fail. part free-running-race: the same actors as real parallel goroutines over an ungated transport that yields inside Write; oracle = race detector report file unchanged (GORACE log_path) + the same wire oracle. Non-trivial = a call started while another write was held in the transport, or a WriteControl timed out.",
+        "assumptions": TRUST + ["schedules are explored at the granularity API call / transport write / lock acquisition, not instruction level; data-race freedom is only observed on executed schedules (race detector)", "the stepped scheduler adds happens-before edges, hence the separate free-running leg for races"],
+        "level_text": "Bounded exploration of generated schedules with an owned scheduler and clock (deterministic), plus randomized real-parallel stress under the race detector. This is the weakest fit for property-based testing: 'for all schedules' is sampled.",
+        "level_note": "Needs go1.26.8 (testing/synctest) and -race; both are pre-installed.",
+        "technique": "property-based testing (rapid) of schedules inside testing/synctest bubbles (owned scheduler + fake clock) and race-detector stress",
+        "legs": [raceleg("^TestC11Owned$", 400, 5000), raceleg("^TestC11Free$", 300, 4000)],
     },
 }
 
